@@ -17,7 +17,7 @@ def select(ctx, ops, pred, thorough):
         if name.endswith(".stale"):
             continue
         ks = set(faultlib.thresholds(op))
-        step = 1 if thorough else (5 if total > 100 else 3)
+        step = 1 if thorough or name.endswith(".helpout") else (5 if total > 100 else 3)     # helpout: the byte that matters is one particular byte
         ks |= set(range(0, total + 1, step))
         segs = ["whole", "one", "rand"] if thorough else ["rand"]
         for k in sorted(ks):
